@@ -102,6 +102,7 @@ def handle (j : Json) : R Json := do
       | none => Json.null
       | some r => jObj [("canon", ivsToJson r.canon), ("inside", toJson (partsInside mx r)),
                         ("area_wf", toJson (areaWF (if circ then mx else 0) mx r)),
+                        ("disjoint", toJson (partsDisjoint r.parts)), ("nparts", toJson r.parts.length),
                         ("covers_input", toJson (subsetIvs a.canon r.canon)),
                         ("within_expected", toJson (subsetIvs r.canon expected))]
     -- "arc-shaped": one part, or two parts bridging the origin (the only shapes for which
